@@ -83,3 +83,26 @@ claim("C17", "proof",
       "S = 3 species (structure). Sortedness of times is the property's quantifier (instances at all read indices). L-IVT "
       "(discrete intermediate value, needs induction) is an assumed lemma instance. A1.",
       "deductive: symbolic execution of real source (search-loop rule, fold ghosts) + SMT", "DESIGN.md 3/C17")
+claim("C01", "proof",
+      "Python realisations of the rate law are executed symbolically and compared with one spec function (mass action "
+      "k*V*PROD (x/V)^nu; Bernstein interface diffusivity; exchange constant Dij*s/(d*V)): compute_reaction_rates for all "
+      "side shapes of orders 0..4 with per-environment constants, symbolic cell / environment map / state / volumes and "
+      "independent unit systems; compute_diffusion_rates on grids (neighbour test replaced by its C15 contract) and graphs "
+      "(own units per node/edge); compute_dspeciesdt for grids (per axis: every boundary situation, both boundary modes) and "
+      "graphs with the two rate functions replaced by their contracts (which reactions / which neighbour pairs are requested, "
+      "net stoichiometry weights, flux signs); the exported ODE right-hand side make_dxdtf equals the same law (V^(1-order) "
+      "form identified with the mass-action form). Real-arithmetic identities are decided by exact rational-function "
+      "normalisation, the rest by z3/cvc5. Returned dimension amount/time and units system on every path.",
+      "Engine side (Euler step, matrix builders, ctypes seam) is not yet under contract in this check: see C01 notes in "
+      "DESIGN.md; 3-D grids all-at-once and compute_dstatedt layout are bounded stand-ins (random / small concrete systems). "
+      "Structure enumerated (S<=3, E<=2, 2 reactions). A1, A3 (real cube root).",
+      "deductive: symbolic execution of real source + exact rational-function normalisation + SMT; modular (callee contracts)",
+      "DESIGN.md 3/C01")
+claim("C03", "proof",
+      "Python side: compute_dspeciesdt returns 0 iff the flag at (that species, that cell) is set and chemostats are applied, "
+      "else the rate law (grid per axis and graph, species 0 and 1, with callee contracts); make_dxdtf zeroes exactly the "
+      "flagged species; RDSystem.apply_reaction changes entry (species, cell) by n x net stoichiometry iff its flag is 0 and "
+      "leaves every other entry of the symbolic-length state unchanged (frame at a Skolem index), update / copy modes.",
+      "Engine writers (Euler Compute_dxdt, tau-leap Apply_nevt, Gillespie ApplyReaction/ApplyDiffusion) are not yet under "
+      "contract in this check. Structure enumerated. A1.",
+      "deductive: symbolic execution of real source + SMT; modular (callee contracts)", "DESIGN.md 3/C03")
